@@ -42,7 +42,7 @@ func overlapRevoke(c overlapCase, res *WRes) {
 	res.Trans += 3
 	res.class(fmt.Sprintf("%s:revoke=%s:finish=%s", c.Kind, ro.Class(), out.Class()))
 	res.distinct(fmt.Sprintf("%s|%v|%v|%s", c.Kind, c.JWT, c.Tx, out.Class()))
-	if ro.GoErr != "" {
+	if ro.RevokeClass() != "" {
 		res.note("sanity:revocation-refused:" + c.Kind)
 		return
 	}
